@@ -101,6 +101,14 @@ class CallFunction(Node):
                 return vsprintf("sound %s %s", modif.name,
                                       rest.generate_lingo(indentation))
             
+            if ('go' == self.name and not self.use_parenthesis
+                and len(params.operands) == 1
+                and isinstance(params.operands[0], Symbol)
+                and params.operands[0].name in ('loop', 'next', 'previous')):
+                # The commands go loop, go next, go previous: the only place
+                # where these symbols are written without the hash
+                return self.name + ' ' + params.operands[0].name
+            
             if self.use_parenthesis:
                 return self.name + '('+params.generate_lingo(indentation)+')'
             else:    
